@@ -898,6 +898,29 @@ func (g *gen) chanStmt() {
 	if g.off("chan") {
 		return
 	}
+	if g.p.Go && len(g.varsOf(TPS)) > 0 && g.chance(25, "chanptr") {
+		// a channel of pointers: an object is put in the channel, then a select whose send case is listed before its
+		// receive case may take it out again; the received pointer is used in the case body
+		p, _ := g.pickVar(TPS, "chanptrv")
+		ch, q := g.fresh(), g.fresh()
+		g.feat("chan-of-pointers-select")
+		g.emit("%s := make(chan *S, 2)", ch)
+		g.emit("%s <- %s", ch, p.name)
+		g.emit("select {")
+		g.emit("case %s <- newS(%q):", ch, "c"+ch)
+		g.emit("case %s := <-%s:", q, ch)
+		g.indent++
+		g.emit("_ = %s", q)
+		save := g.scope
+		g.declare(q, TPS)
+		g.emit("%s.B = %s", q, g.expr(TStr, 1))
+		g.block(1 + g.intn(2, "chanptrn"))
+		g.scope = save
+		g.indent--
+		g.emit("default:")
+		g.emit("}")
+		return
+	}
 	c, ok := g.pickVar(TChan, "ch")
 	if !ok {
 		v := g.fresh()
